@@ -14,6 +14,7 @@ complete bundled database through text, and lazy lookups in pseudo-random orders
 """
 import ast
 import random
+import shutil
 
 import z3
 
@@ -339,9 +340,54 @@ def _job_targeted(idx):
     return ('ok', name) if not bad else ('bad', name, bad)
 
 
+def _override_db_case():
+    """A second binary database registered with add_engine_database() that redefines a bundled class: one-at-a-time
+    lookups (EntityDef.engine_def) and the whole-database load (FGD.engine_dbase) must describe every entity alike.
+    Runs in a pool worker, so the registration does not outlive the case."""
+    import contextlib
+    import io
+    import tempfile
+    from pathlib import Path
+    from contracts import c16_fgd_support as S
+    from srctools import fgd as F
+    from srctools._engine_db import serialise
+    full = F.FGD.engine_dbase()
+    small = F.FGD()
+    keep = sorted(n for n, e in full.entities.items() if not e.is_alias and n != '_cbaseentity_')[:200]
+    for extra in ('info_target', 'logic_relay'):
+        if extra not in keep:
+            keep.append(extra)
+    small.entities['_cbaseentity_'] = full.entities['_cbaseentity_']
+    for n in keep:
+        small.entities[n] = full.entities[n]
+    small['info_target'].kv['c16_override'] = F.KVDef('c16_override', F.ValueTypes.INT, 'Override', '42')
+    small['logic_relay'].kv['c16_other'] = F.KVDef('c16_other', F.ValueTypes.STRING, 'Other', 'x')
+    tmp = tempfile.mkdtemp(prefix='c16o_')
+    try:
+        path = Path(tmp, 'override.lzma')
+        with contextlib.redirect_stdout(io.StringIO()), path.open('wb') as f:
+            serialise(small, f)
+        F.add_engine_database(path)
+        whole = F.FGD.engine_dbase()
+        for name in ['info_target', 'logic_relay'] + keep[:40] + sorted(full.entities)[-40:]:
+            one = F.EntityDef.engine_def(name)
+            d1, d2 = S.dump_ent(one), S.dump_ent(whole[name])
+            if d1 != d2:
+                k1, k2 = sorted(one.keyvalues), sorted(whole[name].keyvalues)
+                return (f'with an override database registered, engine_def({name!r}) and engine_dbase()[{name!r}] differ '
+                        f'(keyvalues only in one of them: {sorted(set(k1) ^ set(k2))[:5]})')
+        if 'c16_override' not in F.EntityDef.engine_def('info_target').keyvalues:
+            return 'the registered override database is ignored by engine_def()'
+        return None
+    finally:
+        shutil.rmtree(tmp, ignore_errors=True)
+
+
 def _job_db(kind):
     from contracts import c16_fgd_support as S
     try:
+        if kind == 'override':
+            return ('ok', kind) if not (d := _override_db_case()) else ('bad', kind, d)
         if kind == 'text':
             return ('ok', kind) if not (d := S.check_engine_db_text()) else ('bad', kind, d)
         d = S.check_engine_db_lazy(kind)
@@ -371,7 +417,7 @@ def b_roundtrip(ctx):
                 continue
             ctx.violation(f'targeted={S.TARGETED[idx][0]}', what, [idx])
     orders = list(range(12 if ctx.thorough else 2))
-    for kind, res in ctx.pmap(_job_db, ['text'] + orders, job_timeout=240.0):
+    for kind, res in ctx.pmap(_job_db, ['text', 'override'] + orders, job_timeout=240.0):
         ctx.case(('enginedb', kind))
         if isinstance(res, str) or res[0] != 'ok':
             ctx.violation(f'enginedb={kind}', res if isinstance(res, str) else str(res[2]), [kind])
